@@ -930,6 +930,44 @@ func runC10(e *Env) {
 		good := origin.FieldOfParam(o, fn.Params[0], "Flag")
 		r.Check(good, "E3.flagflow", "LoadFilter/flags", p.Pos(w.Pos()), "the flags argument is filter.Flag, unchanged", "the flags argument of the seccomp call is "+o.String()+", not filter.Flag unchanged")
 	}
+	// no second installation path that cannot carry the flag word: prctl(PR_SET_SECCOMP, SECCOMP_MODE_FILTER, prog) has no
+	// flags argument, so a filter installed that way covers the calling thread only, whatever Filter.Flag says
+	setSeccomp := int64(e.Oracle().Consts["PR_SET_SECCOMP"])
+	bad := "a filter is installed with prctl(PR_SET_SECCOMP), which has no flags argument: Filter.Flag never reaches the kernel on this path, so with thread-sync requested only the calling thread is filtered while LoadFilter reports success"
+	for _, site := range m.sites {
+		if site.name != "prctl" || len(site.call.Common().Args) < 2 {
+			continue
+		}
+		opt := site.call.Common().Args[1]
+		if k, isK := flow.ConstInt(opt); isK {
+			r.Check(setSeccomp == 0 || k != setSeccomp, "E3.flagflow", load.FuncName(site.fn)+fmt.Sprintf("/raw-prctl-option-%d", k), p.Pos(site.call.Pos()), "this prctl call does not install a filter", bad)
+			continue
+		}
+		prm, isPrm := flow.StripConv(opt).(*ssa.Parameter)
+		if !isPrm {
+			r.Unknown("E3.flagflow", load.FuncName(site.fn)+"/prctl-option", p.Pos(site.call.Pos()), "the option of a raw prctl call is neither a constant nor a parameter of its wrapper")
+			continue
+		}
+		idx := 0
+		for k, q := range site.fn.Params {
+			if q == prm {
+				idx = k
+			}
+		}
+		for _, f := range p.SrcFuncs(load.PkgRoot) {
+			for _, c := range callsToFn(f, site.fn) {
+				if idx >= len(c.Call.Args) {
+					continue
+				}
+				k, isK := flow.ConstInt(c.Call.Args[idx])
+				if !isK {
+					r.Unknown("E3.flagflow", load.FuncName(f)+"/prctl-option", p.Pos(c.Pos()), "prctl is called with a non-constant option")
+					continue
+				}
+				r.Check(setSeccomp == 0 || k != setSeccomp, "E3.flagflow", load.FuncName(f)+fmt.Sprintf("/prctl-option-%d", k), p.Pos(c.Pos()), "this prctl call does not install a filter", bad)
+			}
+		}
+	}
 	checkSeccompWrapper(e, m, "E3.flagflow")
 	// "thread-sync requested and nil returned => every thread covered" needs the refusal to be reported for
 	// every flag word that contains the thread-sync bit
